@@ -54,12 +54,14 @@ class ScriptedEstimator:
 class RecordingRng:
     """Proxy around a real numpy Generator that records every `permutation` result."""
 
-    def __init__(self, gen, log):
-        self._gen, self._log = gen, log
+    def __init__(self, gen, log, args=None):
+        self._gen, self._log, self._args = gen, log, args
 
     def permutation(self, x, *a, **k):
         res = self._gen.permutation(x, *a, **k)
         self._log.append(("permutation", [int(v) for v in np.asarray(res).ravel()]))
+        if self._args is not None:
+            self._args.append(x if isinstance(x, (int, np.integer)) else [int(v) for v in np.asarray(x).ravel()])
         return res
 
     def __getattr__(self, name):
@@ -73,14 +75,14 @@ class RecordingRng:
 
 
 class _RandomShim:
-    def __init__(self, real, log, seeds):
-        self._real, self._log, self._seeds = real, log, seeds
+    def __init__(self, real, log, seeds, args=None):
+        self._real, self._log, self._seeds, self._args = real, log, seeds, args
 
     def default_rng(self, seed=None):
         if isinstance(seed, RecordingRng):
             return seed
         self._seeds.append(seed if not isinstance(seed, np.random.Generator) else "generator-object")
-        return RecordingRng(self._real.default_rng(seed), self._log)
+        return RecordingRng(self._real.default_rng(seed), self._log, self._args)
 
     def __getattr__(self, name):
         attr = getattr(self._real, name)
@@ -93,8 +95,8 @@ class NpShim:
     """Forwarding replacement for the name `np` inside the discovery module."""
 
     def __init__(self):
-        self.log, self.seeds = [], []
-        self.random = _RandomShim(np.random, self.log, self.seeds)
+        self.log, self.seeds, self.args = [], [], []
+        self.random = _RandomShim(np.random, self.log, self.seeds, self.args)
 
     def __getattr__(self, name):
         return getattr(np, name)
@@ -188,3 +190,62 @@ def same_val(impl, model):
     if np.isnan(impl) or np.isinf(impl):
         return False
     return Fraction(impl) == m
+
+
+# ----------------------------------------------------------------------------- observe + compare
+
+def observe(data, est, **params):
+    """Run the real discover_network under instrumentation. Returns a dict of observations
+    (or {'error': ExceptionType} when it raises)."""
+    from causationentropy.core.discovery import discover_network
+
+    with instrumented(est) as obs, quiet():
+        try:
+            G = discover_network(data, **params)
+        except Exception as e:  # noqa
+            return {"error": type(e).__name__, "obs": obs}
+    perms = [p for (k, p) in obs.np.log if k == "permutation"]
+    other = [k for (k, p) in obs.np.log if k != "permutation"]
+    return {"G": G, "obs": obs, "perms": perms, "other_rng": other, "seeds": list(obs.np.seeds), "lasso": list(obs.lasso),
+            "tests": obs.tests, "args": list(obs.np.args)}
+
+
+def p_same(impl, model):
+    """p-value: float of the exact fraction"""
+    return float(impl) == float(unval(model))
+
+
+def compare_with_model(run, suite, case, o, m, names):
+    """Compare the observations of a real run with the model's replay `m` (driver 'ok' payload).
+    `names`: node names in input order. Returns True iff everything matches."""
+    ok = True
+    if "error" in o or "error" in m:
+        if o.get("error") != m.get("error"):
+            run.corr_fail(suite, case, m.get("error", "returns a graph"), o.get("error", "returns a graph"), "error behaviour")
+            return False
+        return True
+    ie = graph_edges(o["G"])
+    me = m["edges"]
+    pos = {n: i for i, n in enumerate(names)}
+    if len(ie) != len(me):
+        run.corr_fail(suite, case, [e[:3] for e in me], [(pos.get(a), pos.get(b), l) for a, b, l, _, _ in ie], "edge lists differ")
+        return False
+    for a, b in zip(ie, me):
+        if not (pos.get(a[0]) == b[0] and pos.get(a[1]) == b[1] and a[2] == b[2] and same_val(a[3], b[3]) and p_same(a[4], b[4])):
+            run.corr_fail(suite, case, b, (pos.get(a[0]), pos.get(a[1]), a[2], a[3], a[4]), "edge differs")
+            ok = False
+            break
+    tests, evs = o["tests"], m["events"]
+    if len(tests) != len(evs):
+        run.corr_fail(suite, case, f"{len(evs)} significance tests", f"{len(tests)} significance tests", "test counts differ")
+        return False
+    for i, (t, e) in enumerate(zip(tests, evs)):
+        alpha = t["kwargs"].get("alpha", t["args"][0] if t["args"] else None)
+        if not (same_val(t["obs"], e[4]) and bool(t["result"]["Pass"]) == e[5] and p_same(t["result"]["P_value"], e[6]) and Fraction(float(alpha)) == unval(e[1])):
+            run.corr_fail(suite, case, e, {"obs": t["obs"], "Pass": bool(t["result"]["Pass"]), "P_value": float(t["result"]["P_value"]), "alpha": alpha}, f"test #{i} differs")
+            ok = False
+            break
+    if m["draws"] != len(o["perms"]):
+        run.corr_fail(suite, case, m["draws"], len(o["perms"]), "number of generator draws differs")
+        ok = False
+    return ok
